@@ -7,7 +7,7 @@ set -u
 id=$1; src=$2; shift 2
 dst=/verif/seeded/$id; mkdir -p $dst
 cp -r $src/. $dst/ 2>/dev/null
-log=$dst/confirm.log; : > $log
+log=$dst/confirm.log; if [ "${PHASE:-AB}" = "B" ]; then echo "== phase B" >> $log; else : > $log; fi
 wt=/tmp/mutwt-$id
 [ -d $wt ] || git -C /repo worktree add --detach $wt HEAD >>$log 2>&1
 (cd $wt && git checkout -q -- . && git apply $dst/patch.diff) >>$log 2>&1 || { echo "RESULT patch-does-not-apply" >>$log; exit 1; }
@@ -15,11 +15,13 @@ echo "== build changed tree (hook build)" >>$log
 (cd $wt && RUSTFLAGS="--cfg wild_verif" CARGO_NET_OFFLINE=true CARGO_TARGET_DIR=/verif/.build-mut/${STREAM:-s0}/hook cargo build --offline --profile opt -p wild-linker -p linker-diff) >>$log 2>&1 || { echo "RESULT build-failed" >>$log; exit 1; }
 changed=/verif/.build-mut/${STREAM:-s0}/hook/opt/wild
 base=/verif/.build/hook/opt/wild
-if [ -f $dst/demo.sh ]; then
+if [ -f $dst/demo.sh ] && [ "${PHASE:-AB}" != "B" ]; then
   chmod +x $dst/demo.sh
   for i in 1 2; do (cd $dst && timeout 1800 ./demo.sh $base) >>$log 2>&1; echo "demo unchanged run$i rc=$?" >>$log; done
   (cd $dst && timeout 1800 ./demo.sh $changed) >>$log 2>&1; echo "demo changed rc=$?" >>$log
 fi
+if [ "${PHASE:-AB}" = "A" ]; then SKIP_SUITE=1; fi
+if [ -z "${SKIP_SUITE:-}" ]; then
 echo "== test suite on changed tree" >>$log
 (cd $wt && CARGO_TARGET_DIR=/verif/.build-mut/${STREAM:-s0}/test timeout 3600 cargo nextest run --workspace --no-fail-fast --tool-config-file pb:/w/lib/nextest.toml --profile pb --test-threads 6 --offline) > $dst/testsuite.log 2>&1
 grep -E "Summary" $dst/testsuite.log >>$log
@@ -34,6 +36,8 @@ while read t; do
   done
   echo "retest $t => $([ $ok = 1 ] && echo pass || echo FAIL)" >>$log
 done < $dst/extra_fail.txt
+fi
+[ "${PHASE:-AB}" = "B" ] && set --
 for p in "$@"; do
   for sd in 0 1; do
     VERIF_SEED=$sd VERIF_REPO=$wt VERIF_BUILD_DIR=/verif/.build-mut/${STREAM:-s0} VERIF_OUT_DIR=/verif/.scratch/mutout-$id /verif/check $p --tier quick > $dst/check-$p-quick-$sd.log 2>&1
